@@ -776,12 +776,49 @@ def roundtrip_oracle(chk, case, spec, net, files):
             b.append(('%s|deep_equal_to-false-but-no-difference-found' % what, 'deep_equal_to is False although the deep comparison found no difference'))
         return b, reloaded
     # (a) to_dict -> from_dict
+    r1 = None; d = None; d0 = None
     try:
         d = net.to_dict()
+        d0 = snap(d, C)                 # image of the dict before anything reads it
         b, r1 = check(C['Network'].from_dict(d), 'SupplyChainNetwork.from_dict(to_dict)')
         bad += b
     except Exception as e:
         bad.append(('SupplyChainNetwork.from_dict(to_dict)|raises-%s' % type(e).__name__, traceback.format_exc()[-500:]))
+    # (a2) histories on ONE dict object: from_dict must read its argument, not consume it; the dict stays usable and independent of
+    #      the networks built from it (the first reloaded network is simulated = mutated in between); converting the same dict again,
+    #      and converting the reloaded network once more (second generation), still give the original
+    ta = None
+    if r1 is not None:
+        def dict_unchanged(when):
+            for path, msg, x, y in diff(d0, snap(d, C), limit=3):
+                bad.append(('SupplyChainNetwork.from_dict|argument-dict-changed', 'the dict d = net.to_dict() was changed %s at %s: %s' % (when, path, msg)))
+        dict_unchanged('by from_dict(d)')
+        what2 = 'SupplyChainNetwork.from_dict(to_dict) second generation'
+        try:
+            b, _ = check(C['Network'].from_dict(r1.to_dict()), what2)
+            bad += b
+        except Exception as e:
+            bad.append(('%s|raises-%s' % (what2, type(e).__name__), traceback.format_exc()[-500:]))
+        if spec['sim']:
+            ta = trajectory(copy.deepcopy(net), spec['T'], spec['seed'])
+            relink_product_policies(r1)
+            bad += compare_trajectories(ta, trajectory(r1, spec['T'], spec['seed']), 'network rebuilt by from_dict(to_dict)')
+            dict_unchanged('by simulating the network built from it')
+        what2 = 'SupplyChainNetwork.from_dict(to_dict) second conversion of the same dict'
+        try:
+            b, r2 = check(C['Network'].from_dict(d), what2)
+            bad += b
+            dict_unchanged('by the second from_dict(d)')
+            if ta is not None and not [s for s, _ in b if s != KNOWN_D1]:
+                relink_product_policies(r2)
+                bad += compare_trajectories(ta, trajectory(r2, spec['T'], spec['seed']), 'network rebuilt by the second from_dict of the same dict')
+        except Exception as e:
+            bad.append(('%s|raises-%s' % (what2, type(e).__name__), traceback.format_exc()[-500:]))
+        try:
+            for path, msg, x, y in diff(d0, snap(net.to_dict(), C), limit=3):
+                bad.append(('SupplyChainNetwork.to_dict|not-repeatable', 'a later net.to_dict() differs from the first one at %s: %s' % (path, msg)))
+        except Exception as e:
+            bad.append(('SupplyChainNetwork.to_dict|second-call-raises-%s' % type(e).__name__, traceback.format_exc()[-500:]))
     # (b) save_instance -> load_instance, without and with state variables
     fp = os.path.join(SCRATCH, 'rt_%d.json' % len(files)); files.append(fp)
     reloaded_plain = None
@@ -793,6 +830,18 @@ def roundtrip_oracle(chk, case, spec, net, files):
             b, _ = check(r, what, expect_no_sv=(omit or ignore))
             bad += b
             if omit and ignore: reloaded_plain = r
+            if not omit and not ignore:
+                # histories on ONE file: a second load of the same record, and the loaded network saved over the record and
+                # loaded again (second generation), still give the original
+                raw0 = open(fp).read()
+                what2 = what + ' second load of the same file'
+                b, r = check(load_instance('inst', filepath=fp, ignore_state_vars=ignore), what2, expect_no_sv=False)
+                bad += b
+                if open(fp).read() != raw0: bad.append(('load_instance|file-changed', 'load_instance changed the file'))
+                what2 = what + ' second generation'
+                save_instance('inst', r, 'descr', filepath=fp, omit_state_vars=omit, replace=True)
+                b, _ = check(load_instance('inst', filepath=fp, ignore_state_vars=ignore), what2, expect_no_sv=False)
+                bad += b
         except Exception as e:
             bad.append(('%s|raises-%s' % (what, type(e).__name__), traceback.format_exc()[-500:]))
     # (c) nothing of the above altered the original
@@ -800,18 +849,23 @@ def roundtrip_oracle(chk, case, spec, net, files):
         bad.append(('save_instance|original-mutated', 'original network changed by to_dict/save_instance at %s: %s' % (path, msg)))
     # (d) same trajectory under the same seed
     if spec['sim'] and reloaded_plain is not None:
-        a = copy.deepcopy(net)
-        ta = trajectory(a, spec['T'], spec['seed'])
+        if ta is None: ta = trajectory(copy.deepcopy(net), spec['T'], spec['seed'])
         relink_product_policies(reloaded_plain)
         tb = trajectory(reloaded_plain, spec['T'], spec['seed'])
         chk.count('sim=%s' % ta[0])
-        if ta[0] != tb[0] or (ta[0] == 'raises' and ta[1] != tb[1]):
-            bad.append(('simulation|reloaded-behaves-differently', 'original: %r, reloaded: %r' % (ta[:2], tb[:2])))
-        elif ta[0] == 'ok':
-            if not same_leaf(ta[1], tb[1]): bad.append(('simulation|total-cost-differs', 'total cost %r vs %r' % (ta[1], tb[1])))
-            dd = diff(ta[2], tb[2], limit=5)
-            for path, msg, x, y in dd:
-                bad.append(('simulation|trajectory-differs', 'state variables differ at %s: %s' % (path, msg)))
+        bad += compare_trajectories(ta, tb, 'network reloaded from the instance file')
+    return bad
+
+
+def compare_trajectories(ta, tb, which):
+    """ta / tb = trajectory(original) / trajectory(reloaded) under the same seed -> list of (sig, msg)"""
+    bad = []
+    if ta[0] != tb[0] or (ta[0] == 'raises' and ta[1] != tb[1]):
+        bad.append(('simulation|reloaded-behaves-differently', '%s: original: %r, reloaded: %r' % (which, ta[:2], tb[:2])))
+    elif ta[0] == 'ok':
+        if not same_leaf(ta[1], tb[1]): bad.append(('simulation|total-cost-differs', '%s: total cost %r vs %r' % (which, ta[1], tb[1])))
+        for path, msg, x, y in diff(ta[2], tb[2], limit=5):
+            bad.append(('simulation|trajectory-differs', '%s: state variables differ at %s: %s' % (which, path, msg)))
     return bad
 
 
